@@ -241,3 +241,63 @@ def build4(m):
                    ])},
                    prop=['C16'],
                    note='sortedness / rank facts about `tokens` come from the trusted find_tokens contract'))
+
+
+def build5(m):
+    """find_tokens and ParseToken.__init__ verified against the finder / match protocols (C16)."""
+    MATCH = TRef('Match')
+    m.classes.setdefault('Match', {})
+    m.ufunc('m_start', [MATCH, INT], INT)
+    m.ufunc('m_end', [MATCH, INT], INT)
+    # match protocol (re.Match and core_tokens.MatchObj): group g lies inside the match, the match inside the string
+    m.methods[('Match', 'start')] = 'protocol:Match.start'
+    m.add(Contract('protocol:Match.start', [('self', MATCH), ('n', INT, mk_int(0))], returns=INT, trusted=True, pure=True,
+                   ensures=['result == m_start(self, n)']))
+    m.methods[('Match', 'end')] = 'protocol:Match.end'
+    m.add(Contract('protocol:Match.end', [('self', MATCH), ('n', INT, mk_int(0))], returns=INT, trusted=True, pure=True,
+                   ensures=['result == m_end(self, n)']))
+    m.predicate('MATCH_OK', ['mo', 'g', 'string'],
+                '0 <= m_start(mo, 0) and m_start(mo, 0) <= m_start(mo, g) and m_start(mo, g) <= m_end(mo, g) '
+                'and m_end(mo, g) <= m_end(mo, 0) and m_end(mo, 0) <= len(string)')
+    m.methods[('SpanCls', 'find')] = 'protocol:SpanCls.find'
+    m.add(Contract('protocol:SpanCls.find', [('self', SPANCLS), ('string', STR)], returns=TList(MATCH), trusted=True,
+                   may_raise=['CustomTokenError'], modifies=['G:core_tokens._code_matches'],
+                   ensures=['forall(lambda i: MATCH_OK(result[i], self.parse_group, string), 0, len(result))'],
+                   note='finder protocol: every match (re.Match from finditer, or MatchObj from the core scanner) lies '
+                        'inside the string and its parse group inside the match (A5)'))
+    m.namespaces[MOD]['ParseToken'] = ('class', 'ParseToken')
+    m.methods[('ParseToken', '__init__')] = MOD + ':ParseToken.__init__'
+    m.add(Contract(MOD + ':ParseToken.__init__',
+                   [('self', PT), ('start', INT), ('end', INT), ('match', MATCH), ('string', STR), ('cls', SPANCLS),
+                    ('fallback_token', SPANCLS)],
+                   requires=['start == m_start(match, 0)', 'end == m_end(match, 0)', 'MATCH_OK(match, cls.parse_group, string)'],
+                   ensures=['PT_OK(self)', 'self.end <= len(string)', 'len(self.children) == 0', 'self.string == string',
+                            'self.cls == cls', 'self.start == start', 'self.end == end'],
+                   modifies=['self.start', 'self.end', 'self.parse_start', 'self.parse_end', 'self.match', 'self.string',
+                             'self.cls', 'self.fallback_token', 'self.children'],
+                   prop=P))
+    m.add(Contract('builtin:sorted#ParseToken', [('xs', TList(PT))], returns=TList(PT), trusted=True,
+                   ensures=['len(result) == len(xs)',
+                            'forall(lambda i, j: implies(i <= j, result[i].start <= result[j].start), 0, len(result), 0, len(result))',
+                            'forall(lambda i: exists(lambda j: xs[j] == result[i], 0, len(xs)), 0, len(result))',
+                            'forall(lambda i: result[i].rank == i, 0, len(result))'],
+                   modifies=['F:ParseToken.rank'],
+                   note='sorted() with ParseToken.__lt__ (by start) returns a stable permutation in ascending start order (A8); '
+                        'rank is the ghost position in the sorted list'))
+    ELEM_OK = 'PT_OK(%s[i]) and %s[i].end <= len(string) and len(%s[i].children) == 0'
+    m.add(Contract(MOD + ':find_tokens#body', [('string', STR), ('token_types', TList(SPANCLS)), ('fallback_token', SPANCLS)],
+                   returns=TList(PT),
+                   ensures=[('forall(lambda i: %s, 0, len(result))' % (ELEM_OK % ('result', 'result', 'result')), 'C16'),
+                            ('forall(lambda i, j: implies(i <= j, result[i].start <= result[j].start), 0, len(result), 0, len(result))', 'C16'),
+                            ('forall(lambda i: result[i].rank == i, 0, len(result))', 'C16')],
+                   modifies=['G:core_tokens._code_matches', 'F:ParseToken.rank',
+                             'N:ParseToken.start', 'N:ParseToken.end', 'N:ParseToken.parse_start', 'N:ParseToken.parse_end',
+                             'N:ParseToken.match', 'N:ParseToken.string', 'N:ParseToken.cls', 'N:ParseToken.fallback_token',
+                             'N:ParseToken.children'],
+                   allow_exc=['CustomTokenError'],
+                   body_types={'tokens': TList(PT)},
+                   loops={0: Loop(invariant=['forall(lambda i: %s and is_fresh(tokens[i]) and allocated(tokens[i]), 0, len(tokens))'
+                                             % (ELEM_OK % ('tokens', 'tokens', 'tokens'))]),
+                          1: Loop(invariant=['forall(lambda i: %s and is_fresh(tokens[i]) and allocated(tokens[i]), 0, len(tokens))'
+                                             % (ELEM_OK % ('tokens', 'tokens', 'tokens'))])},
+                   prop=P))
